@@ -96,6 +96,8 @@ def run(ctx):
         ctx.violation("obligation", dict(broken="translator fails closed: " + l1.STALE), no_input=True)
         return
     ok, out = ctx.prove("Props.C03", THMS)
+    from props import casex
+    casex.case_stage(ctx, "C03")
     known = ctx.finding_keys()
     c04 = [f for f in load_findings()["findings"] if f["property"] == "C04"]
     bad_triples = {tuple(t) for f in c04 for t in f.get("triples", [])}
